@@ -165,24 +165,24 @@ Definition case_ok (k : case) : bool :=
 
 Definition mismatches (cs : list case) : list N := mismatches_from case_ok 0 cs.
 
-(** decoder of the harness's token stream: a table of paths, then the cases;
-    a leaf = path index, indices, value; the round-trip result = 0 (error) |
-    1 (a copy equal to the input) | 2 leaves *)
-Definition d_leaf (table : list path) : dec leaf :=
+(** decoder of the harness's token stream: a table of paths, a table of
+    values, then the cases; a leaf = path index, indices, value index; the
+    round-trip result = 0 (error) | 1 (a copy equal to the input) | 2 leaves *)
+Definition d_leaf (table : list path) (vals : list str) : dec leaf :=
   d_map (fun '(p, idx, v) => mkLeaf (nth p table []) idx v)
-        (d_pair (d_pair d_nat (d_list d_N)) d_str).
+        (d_pair (d_pair d_nat (d_list d_N)) (d_ref vals)).
 
-Definition d_case (table : list path) : dec case :=
+Definition d_case (table : list path) (vals : list str) : dec case :=
   fun s =>
-    match d_list (d_leaf table) s with
+    match d_list (d_leaf table vals) s with
     | Some (c, tag :: r) =>
         let rt_dec : option (option config * list N) :=
           if tag =? 0 then Some (None, r)
           else if tag =? 1 then Some (Some c, r)
-          else d_map Some (d_list (d_leaf table)) r in
+          else d_map Some (d_list (d_leaf table vals)) r in
         match rt_dec with
         | Some (rtres, r') =>
-            match d_list (d_leaf table) r' with
+            match d_list (d_leaf table vals) r' with
             | Some (obs, r'') => Some ((c, rtres, obs), r'')
             | None => None
             end
@@ -193,6 +193,10 @@ Definition d_case (table : list path) : dec case :=
 
 Definition decode (s : list N) : option (list case) :=
   match d_list (d_list d_str) s with
-  | Some (table, r) => decode_cases (d_case table) r
+  | Some (table, r) =>
+      match d_list d_str r with
+      | Some (vals, r') => decode_cases (d_case table vals) r'
+      | None => None
+      end
   | None => None
   end.
